@@ -1187,6 +1187,7 @@ package fosite
 //@   ensures result != nil
 //@   ensures [C13.client-exists] err == nil && isPARRequest && old(form_parsed[r]) ==> result.GetClient() != nil && result.GetClient() == old(client_of)[old(formget(r.Form, "client_id"))] && result.GetClient().GetID() == old(formget(r.Form, "client_id"))
 //@   ensures isPARRequest ==> authn == old(authn)
+//@   ensures [C17.enforced-needs-a-pushed-request] err == nil && !isPARRequest && implements(f.Config, PushedAuthorizeRequestConfigProvider) && cast(f.Config, PushedAuthorizeRequestConfigProvider).EnforcePushedAuthorize(ctx) ==> (exists u string :: old(par_exists[u]) && !par_exists[u])
 //@   ensures [C13.state-min-length] err == nil && isPARRequest ==> len(result.GetState()) >= (f.Config.GetMinParameterEntropy(ctx) > 0 ? f.Config.GetMinParameterEntropy(ctx) : MinParameterEntropy)
 //@   ensures [C13.state-is-the-effective-form-state] err == nil && isPARRequest ==> result.GetState() == formget(cast(result, *AuthorizeRequest).Form, "state")
 //@   ensures [C13.response-type-registered] err == nil && isPARRequest ==> len(result.GetResponseTypes()) > 0
